@@ -36,7 +36,7 @@ func C08_reply_exact() {
 	}
 	var err error
 	consumed := -1
-	switch vChoose("entry", 4) {
+	switch vChoose("entry", 5) {
 	case 0: // ControlHandler with plain source
 		src := vNewSrc(append([]byte{}, payload...), vChoose("mode", 2), "chunk")
 		err = ControlHandler{Src: &src, Dst: dst, State: st, DisableSrcCiphering: true}.Handle(h)
@@ -54,6 +54,19 @@ func C08_reply_exact() {
 	case 2:
 		src := vNewSrc(append([]byte{}, payload...), 0, "chunk")
 		err = ControlFrameHandler(dst, st)(h, &src)
+	case 4: // the frame arrives BETWEEN the fragments of a data message, on the wire (masked with the
+		// key when the peer is a client), and is handled through the read helpers
+		k := h.Mask
+		wire := vEncode(vFrame{fin: false, op: 2, masked: server, key: k, payload: []byte{'d'}})
+		wire = append(wire, vEncode(vFrame{fin: true, op: byte(op), masked: server, key: k, payload: payload})...)
+		wire = append(wire, vEncode(vFrame{fin: true, op: 0, masked: server, key: k, payload: []byte{'e'}})...)
+		rw := &vRW{vSrc: vNewSrc(wire, vChoose("mode", 2), "chunk")}
+		var data []byte
+		data, _, err = readData(rw, st, ws.OpBinary)
+		dst.all = rw.out
+		if op != ws.OpClose {
+			vAssert(vAnd(err == nil, vEqBytes(data, []byte("de"))), "reply.data_message_around_control_intact")
+		}
 	case 3:
 		err = HandleControlMessage(dst, st, Message{OpCode: op, Payload: payload})
 		vAssert(vEqBytes(payload, keep), "reply.message_payload_intact")
